@@ -195,6 +195,10 @@ def bigfile_cases(ctx, opts, tag):
         ops = [f"P~A{ext}~0~U~~~v", f"P~B{ext}~0-1~U~~~v", f"D~A{ext}", f"Z~{ctx.rng.choice([0, 1, 3])}",
                f"D~{z0}", f"P~C{ext}~0~U~~~v", f"P~E{ext}~0-2~U~~~v", f"D~C{ext}",
                f"Z~2", f"D~{z0}", f"P~G{ext}~0~U~~~v", f"D~B{ext}"]
+        if fs == 'cpm2' and lab == 'imd:8in' and opts != '-':
+            # a chunk 32 MB into the file lies beyond the last extent number: the file is refused and nothing changes
+            far = 32 * 1024 * 1024 // 1024
+            ops = [f"P~A{ext}~0~U~~~v", f"P~FAR{ext}~0,{far}~U~~", f"P~FAR2{ext}~0,{far - 1}~U~~", f"D~FAR2{ext}", f"D~FAR{ext}"] + ops
         if fs == 'pascal' and opts != '-':
             # a file of more blocks than a 16 bit count holds cannot be stored, and the attempt leaves the other files alone
             ops = [f"P~A{ext}~0~U~~~v", f"P~B{ext}~0-1~U~~~v", f"D~A{ext}", f"P~HUGE{ext}~0-65536~U~~", f"P~C{ext}~0~U~~~v", f"P~HUGE{ext}~0-65535~U~~"] + ops
@@ -241,6 +245,11 @@ def subdir_cases(ctx, opts, tag):
             ops = ["M~D1"] + [f"P~D1/F{i}{ext}~0~U~~~v" for i in range(n)] + [f"P~KEEP{ext}~0-2~U~~~v", f"P~ONE{ext}~0~U~~~v", "Z~0", f"D~ONE{ext}", last_op, f"D~KEEP{ext}", f"P~D1/AFTER{ext}~0~U~~~v"]
             out.append(f"fsh {tag}{k} {fs} {lab} {opts} {';'.join(ops)}")
             k += 1
+        # the file image of a directory stored under another name is a file, not a second way into the directory's files
+        if opts != '-':
+            ops = ["M~D1", f"P~D1/X{ext}~0-1~U~~~v", f"P~D1/Y{ext}~0~U~~~v", "C~D1~D9", f"D~D9/X{ext}", f"P~NEW{ext}~0-2~U~~~v", f"D~D1/Y{ext}", f"P~D1/Z{ext}~0~U~~~v"]
+            out.append(f"fsh {tag}{k} {fs} {lab} {opts} {';'.join(ops)}")
+            k += 1
         # a name is taken by whatever holds it: a file cannot take the name of a directory beside it, nor a directory that of a file
         # or of another directory, by rename, put or mkdir; in the root and one level down
         for pre in ('', 'D1/'):
@@ -257,6 +266,14 @@ LOCKBIG = [('dos33', 'do:5.25in', ['0-1', '0-121', '0-122', '0-250', '0,130']), 
            ('prodos', 'po:5.25in', ['0', '0-1', '0-200', '0,256', '0,255', '0,300', '0-2,257']), ('prodos', 'po:3.5in-ds', ['0-256', '0-300', '0-255']),
            ('cpm2', 'do:5.25in', ['0-1', '0-16', '0-40', '0,40']), ('cpm2', 'imd:8in', ['0-16', '0-17']),
            ('fat', 'img:5.25in-ibm-dsdd9', ['0', '0-1', '0-100'])]
+
+
+def deepdir_cases(ctx, opts, tag):
+    """a ProDOS subdirectory filled until it can grow no more (every directory walk of a2kit ends after 100 blocks): the put that does not
+    fit is refused, everything stored before stays readable, files can be deleted and the directory removed when it is empty"""
+    n = 1300
+    ops = ["M~D1"] + [f"P~D1/F{i}~0~U~~" for i in range(n + 3)] + [f"D~D1/F{i}" for i in (0, 650, n - 1, n - 2)] + [f"P~D1/G{i}~0~U~~" for i in range(3)]
+    return [f"fsh {tag}0 prodos po:3.5in-ds {opts}e {';'.join(ops)}"]
 
 
 def lockbig_cases(ctx, opts, tag):
@@ -383,7 +400,7 @@ def standard_run(ctx, pid, opts='r', lock_heavy=False, also=(), model_ok=True, n
             prodos_tree_stream(ctx)
         if pid == 'C01':
             cpm_extent_stream(ctx)
-    oracle = corpus_cases(pid) + collide_cases(ctx, opts, 'oc') + bigfile_cases(ctx, opts, 'ob') + subdir_cases(ctx, opts, 'os') + (lockbig_cases(ctx, opts, 'ol') if lock_heavy else []) + dirfill_cases(ctx, opts, 'od') + slotfill_cases(ctx, opts, 'of') + exactfit_cases(ctx, opts, 'oe') + gen_cases(ctx, ALL_FS, n_o, opts, False, lock_heavy=lock_heavy, tag='o')
+    oracle = corpus_cases(pid) + (deepdir_cases(ctx, opts, 'ox') if (pid == 'C05' and not quick) else []) + collide_cases(ctx, opts, 'oc') + bigfile_cases(ctx, opts, 'ob') + subdir_cases(ctx, opts, 'os') + (lockbig_cases(ctx, opts, 'ol') if lock_heavy else []) + dirfill_cases(ctx, opts, 'od') + slotfill_cases(ctx, opts, 'of') + exactfit_cases(ctx, opts, 'oe') + gen_cases(ctx, ALL_FS, n_o, opts, False, lock_heavy=lock_heavy, tag='o')
     if pid == 'C06':
         # every second history on a container with metadata runs on an image that carries notes of several lines
         def noted(i, c):
